@@ -8,6 +8,7 @@
 //!                accepted value) agree with the reference recogniser on unambiguous lines
 //! * `cause-buf`  error causes of every length around the 128-byte cause buffer (enumerated):
 //!                a cause that fits is reported verbatim, one that does not never panics
+pub mod entry;
 pub mod gen;
 pub mod model;
 pub mod shapes;
@@ -70,7 +71,7 @@ impl ArgStore {
     }
 }
 
-fn call(store: &RefCell<ArgStore>, entry: &ShapeEntry, args: &[Vec<u8>]) -> Result<Outcome, vh::runner::Failure> {
+pub(crate) fn call(store: &RefCell<ArgStore>, entry: &ShapeEntry, args: &[Vec<u8>]) -> Result<Outcome, vh::runner::Failure> {
     let ptrs = store.borrow_mut().load(args);
     no_panic(OP, || (entry.parse)(&ptrs))
 }
@@ -78,12 +79,12 @@ fn call(store: &RefCell<ArgStore>, entry: &ShapeEntry, args: &[Vec<u8>]) -> Resu
 // ------------------------------------------------------------------------------------ helpers
 
 pub struct Env {
-    store: RefCell<ArgStore>,
+    pub(crate) store: RefCell<ArgStore>,
     /// help text per struct level (name -> text), rendered once
     helps: BTreeMap<&'static str, String>,
 }
 
-fn show_args(args: &[Vec<u8>]) -> String {
+pub(crate) fn show_args(args: &[Vec<u8>]) -> String {
     let mut s = String::from("[");
     for (i, a) in args.iter().enumerate() {
         if i > 0 {
@@ -492,6 +493,21 @@ pub fn run(ctx: &Ctx) {
         }
     }
 
+    // the real entry point (no-libc probe), differential against the in-process parse of the same struct
+    let entry_idx = SHAPES.iter().position(|s| s.spec.name == "Entry").expect("shape Entry");
+    if let Some(c) = ctx.replay_case::<entry::EntryCase>("entry") {
+        ctx.run_one("entry", &c, || entry::check_entry(&env, &c));
+    } else if !ctx.is_replay() {
+        for b in 0..entry::BUILDS.len() {
+            if !std::path::Path::new(&entry::probe_path(b)).exists() {
+                eprintln!("[C20] probe binary {} is missing (run lib/build_probes.py probe-cli dyn-debug pie-release)", entry::probe_path(b));
+                std::process::exit(3);
+            }
+        }
+        use proptest::prelude::*;
+        let strat = (gen::rob_case_for(entry_idx), 0u8..2).prop_map(|(r, build)| entry::EntryCase { args: r.args, build });
+        ctx.run_prop("entry", ctx.cases(1200, 40_000), strat, |c: &entry::EntryCase| entry::check_entry(&env, c));
+    }
     ctx.run_prop("rt", ctx.cases(50_000, 1_000_000), gen::rt_case(), |c: &RtCase| check_rt(ctx, &env, c));
     ctx.run_prop("robust", ctx.cases(80_000, 1_800_000), gen::rob_case(), |c: &RobCase| check_rob(&env, c));
 }
